@@ -224,6 +224,11 @@ def compute_guards(ctx):
                 if ej.get("op") == "nunique" and (any(_col_has_null(t, c) for c in _term_cols(ej))
                                                   or (t is not None and not t["rows"])):
                     g.add("nunique_null")
+                if ej.get("op") in ("any", "all") and not n.group_by and t is not None and (
+                        not t["rows"] or any(all(v is None for v in P.table_column(t, c)) for c in _term_cols(ej)
+                                             if c in t["cols"])):
+                    # an un-grouped any()/all() over no (non-null) item: Python's any([]) / all([]) vs SQL MAX/MIN = NULL
+                    g.add("any_all_empty")
             if t is not None and n.group_by and t["rows"] and all(c in t["cols"] for c in n.group_by):
                 gi = [t["cols"].index(c) for c in n.group_by]
                 if all(any(r[j] is None for j in gi) for r in t["rows"]):
@@ -254,6 +259,18 @@ def _expr_guards(ej, t, g):
             g.add("minmax_null")
         if op in ("round", "around"):
             g.add("round_half")
+        if op == "as_str":
+            # text of a NUMBER: numpy prints the float64 a nullable / mapped int column has become ('0.0'), SQL casts the
+            # integer ('0'); a text-valued operand is not affected
+            ks = set()
+            for a in s.get("args", []):
+                for c in _term_cols(a):
+                    if t is not None and c in t["cols"]:
+                        ks.add(t["kinds"][t["cols"].index(c)] if "kinds" in t else "?")
+                if "op" in a or "v" in a:
+                    ks.add("?")
+            if ks - {"str"}:
+                g.add("as_str_number")
         if op in ("%", "mod", "remainder"):
             g.add("float_mod")
         if op == "concat" and (anynull or (computed_null and _table_has_null(t))):
@@ -431,7 +448,9 @@ def attribute(ctx, pair, what="rows", raised=None):
                       ("concat_null_str", "N4-pandas-concat-renders-null-as-nan"),
                       ("cross_empty", "N11-pandas-cross-join-with-empty-side-pads"),
                       ("all_null_common_column", "N10-type-check-misreads-all-null-column"),
-                      ("nunique_null", "N6-polars-nunique-counts-null")):
+                      ("nunique_null", "N6-polars-nunique-counts-null"),
+                      ("any_all_empty", "N29-any-all-over-no-rows"),
+                      ("as_str_number", "N30-as-str-number-format")):
         if tag in g and not (tag == "nunique_null" and not pol):
             return None, cand
     return None, None
